@@ -1071,7 +1071,11 @@ class SVG:
         self._update_etree()
 
         for el in self.xpath("//processing-instruction()"):
-            el.getparent().remove(el)
+            parent = el.getparent()
+            # a processing instruction before or after the root element has no parent;
+            # it is not part of what we serialize (the copying form drops it too)
+            if parent is not None:
+                parent.remove(el)
 
         return self
 
